@@ -50,6 +50,9 @@ def run_all(jobs):
         except Exception as e:
             lcol.inconc(f"harness error in {label.split('#')[0]}: {type(e).__name__}: {e}")
             traceback.print_exc()
+    only = os.environ.get("VERIF_ONLY")  # development aid: run only the jobs whose label starts with this
+    if only:
+        jobs = [j for j in jobs if j[0].startswith(only)]
     with concurrent.futures.ThreadPoolExecutor(max_workers=a.workers) as ex:
         list(ex.map(one, jobs))
 
